@@ -37,6 +37,7 @@ func (cr *compRun) runMPSC() {
 		tasks = append(tasks, w.Spawn(fmt.Sprintf("p%d", ti), func() {
 			seq := 0
 			for _, op := range ops {
+				simrt.BeginOp(simrt.HashString(op.Kind))
 				switch op.Kind {
 				case "push":
 					for i := 0; i < op.N; i++ {
@@ -67,6 +68,7 @@ func (cr *compRun) runMPSC() {
 			return false
 		}
 		for _, op := range cc.Tasks[nprod] {
+			simrt.BeginOp(simrt.HashString(op.Kind))
 			switch op.Kind {
 			case "pop":
 				for i := 0; i < op.N; i++ {
